@@ -178,7 +178,8 @@ class C16(Prop):
                 "C16_restrict_is_query_bigbed", "C16_bedgraph_roundtrip_records", "C16_bed_roundtrip_records",
                 "C16_bed_pipeline_text", "C16_bedgraph_pipeline_records",
                 "C16_bedgraph_file_roundtrip", "C16_bedgraph_file_text", "C16_bed_file_roundtrip",
-                "C16_restrict_file_bigwig", "C16_restrict_file_bigbed", "C16_bedgraph_input_ok", "C16_bed_file_hyps"]
+                "C16_restrict_file_bigwig", "C16_restrict_file_bigbed", "C16_bedgraph_input_ok", "C16_bed_file_hyps",
+                "C16_file_matches_list_model_bigwig", "C16_file_matches_list_model_bigbed"]
     RULE = ("pipelines over the BUILT BINARIES: canonical multi-chromosome bedGraph / BED texts (1..6 chromosomes from a pool with "
             "ASCII, UTF-8 and look-alike names in byte order; per chromosome 1..30 records, one line per chromosome for the tiny class, "
             "1030/2100 records for the multi-block class; adjacent / gapped values touching 0 and the chromosome end incl. 2^32-1; BED entries "
